@@ -21,7 +21,7 @@ RULE = ('IOAPI files from five sources (variable names of 2 to 16 characters; fr
         'complete metadata state (NVARS, VAR-LIST, VAR, TFLAG width and rows, variables and their dimensions, '
         'NROWS/NCOLS/NLAYS, VGLVLS, SDATE/STIME/TSTEP, XORIG/YORIG/XCELL/YCELL, dimension lengths) is compared '
         'with the Lean model and the ten equalities of the property are evaluated on the real file (oracle); '
-        'non-trivial = a sequence with at least two operations of different kinds that completes')
+        'non-trivial = a sequence with at least two operations of different kinds that completes; mask with coords=True and conditions that hit date/time flags; structure-only copies; level edges decreasing or increasing; griddesc files with a CF time variable whose time axis is reduced / subsampled')
 ASSUMPTIONS = ['negative strides on TSTEP (files running backwards in time) are not generated', 'variable data is outside this model (C01-C06); all VAR columns of TFLAG are equal (checked on every observed state)',
                'VGLVLS and origins are float32/float64 in the code and rationals in the model: compared within 1e-6 relative',
                'eval is exercised with single assignments (the order in which several new names are appended follows set iteration order)',
